@@ -139,6 +139,9 @@ func (in *Interp) intrinsic(caller *frame, name string, args []value, pos token.
 		}
 		in.addInput(in.argStr(args[0]), "lz", ts...)
 		return tTrue
+	case "Concurrent":
+		in.concurrent(args[0].(*Slice).Data)
+		return nil
 	case "NativeRetries":
 		return BVu(64, 1) // the symbolic run covers every choice in one pass; natively the harness repeats
 	case "IgnorePanics":
